@@ -159,6 +159,7 @@ TraceNext ==
          [] e.ev = "Ext" ->
               /\ injected' = (IF injected # "none" THEN injected
                               ELSE IF Has(e, "cancelled") THEN "caller-gave-up-at-" \o e.target \o "." \o e.method
+                              ELSE IF Has(e, "hung") THEN "slower-than-the-global-timeout-" \o e.target \o "." \o e.method
                               ELSE IF e.class = "injected" THEN e.target \o "." \o e.method ELSE injected)
               /\ planned' = (IF e.target = "rmgr" /\ e.method = "Alloc" /\ e.class = "ok"
                              THEN [k \in DOMAIN planned \cup {e.node} |-> IF k = e.node THEN Get(planned, e.node, 0) + e.n ELSE planned[k]] ELSE planned)
@@ -170,7 +171,7 @@ TraceNext ==
               \* a call that failed by itself before the injected one: the run has two failures, outside "single failure"
               \* "envfail": the embedded store itself failed (timed out under load): the run is outside the failure model
               /\ natural' = (IF e.class = "envfail" THEN "ENV"
-                              ELSE IF e.class = "err" /\ injected = "none" /\ ~Has(e, "cancelled") /\ e.target \in {"store", "plugin", "engine", "wal"} /\ natural = "none"
+                              ELSE IF e.class = "err" /\ injected = "none" /\ ~Has(e, "cancelled") /\ ~Has(e, "hung") /\ e.target \in {"store", "plugin", "engine", "wal"} /\ natural = "none"
                               THEN e.target \o "." \o e.method ELSE natural)
               /\ created' = (IF e.target = "engine" /\ e.method = "Create" /\ e.class = "ok" THEN created + 1 ELSE created)
               /\ UNCHANGED <<hdr, pre, prior, crashed, msgs, retv, lastcap>>
@@ -192,7 +193,7 @@ TraceNext ==
                   ELSE IF retv = <<>> \/ (injected # "none" /\ natural # "none") \/ natural = "ENV" THEN TRUE
                   ELSE /\ Report(retv.class # "hang", "C12", l, "operation-never-returned/" \o Where)
                        /\ (IF OpKind = "create" THEN Report(CreateTruthful(e, retv), "C12", l, WhyCreate(e, retv) \o "/" \o Where) ELSE TRUE)
-                       /\ (IF OpKind = "create" /\ injected # "store.DeleteProcessing"   \* the injected failure is the clean-up call itself: nothing to judge
+                       /\ (IF OpKind = "create" /\ injected \notin {"store.DeleteProcessing", "slower-than-the-global-timeout-store.DeleteProcessing"}   \* the failure is the clean-up call itself: nothing to judge
                             THEN Report(NoMarkers(e), "C13", l, "marker-left-after-deployment/" \o Where) ELSE TRUE)
                        /\ (IF OpFailed(retv) THEN Report(CoreDiff(pre, e) = "none", "C11", l, "failed-operation-changed-" \o CoreDiff(pre, e) \o "/" \o Where) ELSE TRUE)
                        /\ Report(FailedPartsUntouched(e, retv), "C11", l, "failed-part-changed-its-workload/" \o Where)
